@@ -276,3 +276,17 @@ mod tests {
         assert_eq!(history.next_older(), None);
     }
 }
+
+#[cfg(funbiscuit_embedded_cli_rs_verif)]
+impl<B: Buffer> History<B> {
+    pub fn __verif_from_parts(buffer: B, cursor: Option<usize>, used: usize) -> Self {
+        Self {
+            buffer,
+            cursor,
+            used,
+        }
+    }
+    pub fn __verif_parts(&self) -> (&[u8], Option<usize>, usize) {
+        (self.buffer.as_slice(), self.cursor, self.used)
+    }
+}
